@@ -200,7 +200,7 @@ def trackRun (instr : Str) (ops : List Val) : Option Val :=
         match trackStep t op with
         | none => none
         | some (.ok (r, t')) => go rest t' (.list [r, trackOut t'] :: acc)
-        | some (.error e) => go rest t (.err e :: acc)
+        | some (.error e) => go rest t (.list [.err e, trackOut t] :: acc)   -- a raising call leaves the track unchanged
     go ops { instrument := i } []
 
 def compOut (c : Composition) : Val := .list (c.tracks.map trackOut)
